@@ -41,6 +41,11 @@ def c12(tier, seed):
     jobs = _write_step_jobs("VerifK12WriteStep", "np", tier)
     # "condition without context" written as nil vs as {} (both read back as {}): on_duplicate=ignore must treat them alike
     jobs.append(J(MEM, "VerifK12WriteStep", np=1, nd=0, nw=1, ctx=1, timeout_ms=120000))
+    # ... and a context with a field differs from both (stored or incoming), whichever side carries it
+    jobs.append(J(MEM, "VerifK12WriteStep", np=1, nd=0, nw=1, ctx=2, timeout_ms=120000))
+    # the command layer: option strings of the two request sections are parsed and applied independently
+    # (real WriteCommand.Execute over the real memory datastore; pre-state, sections and both strings forked)
+    jobs.append(J("pkg/server/commands", "VerifK12cWriteOptions", timeout_ms=120000))
     return jobs
 
 
